@@ -271,6 +271,32 @@ theorem C04_windows_perm (perms : Nat → List Nat) (n bs : Nat) (hn : 0 < n)
   rw [C04_window_eq perms n bs hn hlen k w hw]
   exact hperm w
 
+/-- No duplicates inside a window, complete or not: any `m ≤ n` consecutive draws starting at a
+window boundary are pairwise distinct (they are a prefix of that epoch's permutation) — in
+particular a run of fewer than `n` draws in total never repeats an example (sampling is without
+replacement even when `num_steps * bs < n`). -/
+theorem C04_prefix_nodup (perms : Nat → List Nat) (n bs : Nat) (hn : 0 < n)
+    (hperm : ∀ j, (perms j).Perm (List.range n)) (k w m : Nat) (hm : m ≤ n)
+    (hw : w * n + m ≤ k * bs) :
+    ((((stream perms bs k St.init).flatten).drop (w * n)).take m) = (perms w).take m ∧
+    ((((stream perms bs k St.init).flatten).drop (w * n)).take m).Nodup := by
+  have hlen : ∀ j, (perms j).length = n := fun j => by rw [(hperm j).length_eq, List.length_range]
+  have hnd : ((perms w).take m).Nodup :=
+    List.Nodup.sublist (List.take_sublist _ _) ((hperm w).nodup_iff.mpr List.nodup_range)
+  by_cases hm0 : m = 0
+  · subst hm0; simp
+  have hle : k * bs ≤ (k * bs + 1) * n := by
+    have := Nat.le_mul_of_pos_right (k * bs + 1) hn; omega
+  have hwe : w < k * bs + 1 := by
+    have := Nat.le_mul_of_pos_right w hn; omega
+  have e : (((stream perms bs k St.init).flatten).drop (w * n)).take m = (perms w).take m := by
+    rw [C04_stream_eq perms n bs hn hlen k (k * bs + 1) hle, List.drop_take, List.take_take]
+    have h1 : min m (k * bs - w * n) = m := by omega
+    have h2 : (perms w).take m = (((epochs perms (k * bs + 1) 0).drop (w * n)).take n).take m := by
+      rw [epochs_window perms n hlen (k * bs + 1) 0 w hwe, Nat.zero_add]
+    rw [h1, h2, List.take_take, Nat.min_eq_left hm]
+  exact ⟨e, e ▸ hnd⟩
+
 /-- The first `⌈n/bs⌉` batches cover every example. -/
 theorem C04_first_cover (perms : Nat → List Nat) (n bs : Nat) (hn : 0 < n) (hbs : 0 < bs)
     (hperm : ∀ j, (perms j).Perm (List.range n)) (i : Nat) (hi : i < n) :
@@ -391,6 +417,10 @@ example : ∃ bsx, run demoPerms 5 3 (some 2) none false = some bsx ∧ bsx.leng
     (∀ b ∈ bsx, b.length = 3) ∧ bsx.flatten = (epochs demoPerms (4 * 3) 0).take (4 * 3) :=
   C04_run demoPerms 5 3 (by decide) (fun j => by rw [(demoPerms_perm j).length_eq]; rfl) (some 2) none false 4
     (by decide)
+-- fewer draws than one epoch (1 step of 3 on 5 examples): no example twice
+example : (((stream demoPerms 3 1 St.init).flatten).drop (0 * 5)).take 3 = [3, 1, 4] ∧
+    ((((stream demoPerms 3 1 St.init).flatten).drop (0 * 5)).take 3).Nodup :=
+  C04_prefix_nodup demoPerms 5 3 (by decide) demoPerms_perm 1 0 3 (by decide) (by decide)
 /-- the hypothesis `0 < n` is necessary: on an empty dataset the refill loop makes no progress
 (the batch stays short however much fuel it gets) -/
 example : (fill (fun _ => []) 100 3 St.init).1 = [] := by decide
